@@ -153,12 +153,21 @@ def build(spec: dict):
     order = spec.get("meta_order") or ["l1", "refcount", "snap", "l2"]
     interleave = bool(spec.get("l2_interleave"))
     snap_l1 = {}
+    # a snapshot taken before the disk grew (shrank) has an L1 table shorter (longer) than the active one
+    snap_l1_size = {}
+    for i, s in enumerate(snaps):
+        n = l1_size
+        if not s.get("share_active"):
+            if s.get("l1_trim"):
+                n = max([c[0] // g.l2_entries + 1 for c in s["clusters"]] + [1])
+            n += s.get("l1_grow", 0)
+        snap_l1_size[i] = n
     for item in order:
         if item == "l1":
             offsets["l1"] = take(l1_clusters)
             for i, s in enumerate(snaps):
                 if not s.get("share_active"):
-                    snap_l1[i] = take(l1_clusters)
+                    snap_l1[i] = take((snap_l1_size[i] * 8 + cs - 1) // cs)
         elif item == "refcount":
             offsets["refcount"] = take(1)
         elif item == "snap":
@@ -308,7 +317,7 @@ def build(spec: dict):
         l1_tables.setdefault(v, {})[l1i] = off | copied
     fh.put(offsets["l1"], _Table(l1_size, l1_tables.get("active", {})))
     for i, off in snap_l1.items():
-        fh.put(off, _Table(l1_size, l1_tables.get(i, {})))
+        fh.put(off, _Table(snap_l1_size[i], l1_tables.get(i, {})))
 
     fh.put(offsets["refcount"], Lit(bytes(8)))
     for o in [offsets["l1"], offsets["refcount"], *offsets["l2"].values(), *snap_l1.values()]:
@@ -327,11 +336,11 @@ def build(spec: dict):
             extra_size = len(extra_data)
             idb, nameb = s["id"].encode(), s["name"].encode()
             l1off = offsets["l1"] if s.get("share_active") else snap_l1[i]
-            ent = struct.pack(">QIHHIIQII", l1off, l1_size, len(idb), len(nameb), s.get("date_sec", 0), s.get("date_nsec", 0),
+            ent = struct.pack(">QIHHIIQII", l1off, snap_l1_size[i], len(idb), len(nameb), s.get("date_sec", 0), s.get("date_nsec", 0),
                               s.get("vm_clock_nsec", 0), s.get("vm_state_size", 0), extra_size) + extra_data + idb + nameb
             ent += bytes(-len(ent) % 8)
             blob += ent
-            snap_meta.append({"id": s["id"], "name": s["name"], "l1_size": l1_size, "l1_table_offset": l1off,
+            snap_meta.append({"id": s["id"], "name": s["name"], "l1_size": snap_l1_size[i], "l1_table_offset": l1off,
                               "extra_size": extra_size, "unknown_extra": unk if extra_size > 24 else None,
                               "disk_size": s.get("disk_size", size) if extra_size >= 16 else 0,
                               "vm_state_size_large": s.get("vm_state_size_large", 0) if extra_size >= 8 else 0,
@@ -380,7 +389,7 @@ def build(spec: dict):
         "extensions": [(m, bytes.fromhex(p)) for m, p in spec.get("extensions", [])],
         "snapshots": snap_meta, "header_length": hlen, "incompatible": incompat if version == 3 else 0,
         # header + extensions + backing name, L1 table(s), every L2 table, snapshot table (refcounts are not mapping metadata)
-        "metadata_bytes": len(blob0) + l1_size * 8 * (1 + len(snap_l1)) + n_l2 * cs + len(snaps) * 1200,
+        "metadata_bytes": len(blob0) + l1_size * 8 + sum(snap_l1_size[i] * 8 for i in snap_l1) + n_l2 * cs + len(snaps) * 1200,
         "n_l2": n_l2,
     }
     return fh, dfh, bfh, layers, meta
